@@ -239,6 +239,14 @@ static void aead_one(sw_t *sw, const aead_t *a, size_t len) {
         DI(sw, CALL(sw, a->decd(m4, NULL, c4, len, mac, ad, adlen, n, k))); D(sw, m4, len);
         mac2 = AC(sw, mac, a->ab); flip(sw, mac2, a->ab);
         DI(sw, CALL(sw, a->decd(m4, NULL, c4, len, mac2, ad, adlen, n, k)));
+        /* verification-only call forms (m == NULL) and optional length pointers == NULL: genuine, forged and short inputs */
+        DI(sw, CALL(sw, a->dec(NULL, NULL, NULL, c, len + a->ab, ad, adlen, n, k)));
+        mlen = 777; DI(sw, CALL(sw, a->dec(NULL, &mlen, NULL, c3, len + a->ab, ad, adlen, n, k))); DI(sw, (long long) mlen);
+        DI(sw, CALL(sw, a->dec(NULL, NULL, NULL, cs, sl, ad, adlen, n, k)));
+        DI(sw, CALL(sw, a->decd(NULL, NULL, c4, len, mac, ad, adlen, n, k)));
+        DI(sw, CALL(sw, a->decd(NULL, NULL, c4, len, mac2, ad, adlen, n, k)));
+        DI(sw, CALL(sw, a->enc(c, NULL, m, len, ad, adlen, NULL, n, k))); D(sw, c, len + a->ab);
+        DI(sw, CALL(sw, a->encd(c4, mac, NULL, m, len, ad, adlen, NULL, n, k))); D(sw, c4, len); D(sw, mac, a->ab);
         E(sw);
     }
 }
